@@ -8,7 +8,10 @@
    Named deviation Dev_CommentBeforeRegexProbe: a block or line comment in a gap where the
    parser probes the raw input for a regex (parseRegex/peekRune does not skip comments):
    the statement is rejected with a regex-scanner error, or the token after the gap is a
-   regex that is then not recognised.                                                  *)
+   regex that is then not recognised.
+   Named deviation Dev_CommentInEmptyArgumentList: a comment between the parentheses of a call
+   without arguments ( now( -- c ... ) ): parseCall tests for ")" with Scan, which does not
+   skip comments.                                                                      *)
 EXTENDS Naturals, Sequences, FiniteSets, TLC, Json, CSV, IOUtils
 
 VARIABLES l, nt
@@ -31,6 +34,7 @@ SpellVerdicts(r) ==
   ELSE IF Has(o, "panic") \/ Has(o, "harness_panic") THEN {V("panic", r.kind)}
   ELSE IF Has(o, "err") THEN
        (IF d.comment /\ (Has(o, "err_regex") \/ d.re) THEN {V("Dev_CommentBeforeRegexProbe", "")}
+        ELSE IF d.comment /\ d.emptyargs THEN {V("Dev_CommentInEmptyArgumentList", "")}
         ELSE {V(IF d.comment THEN "comment-changes-meaning" ELSE "whitespace-changes-meaning", r.kind)})
   ELSE IF o.ast # r.want THEN {V(IF d.comment THEN "comment-changes-meaning" ELSE "whitespace-changes-meaning", r.kind)}
   ELSE {}
